@@ -159,6 +159,20 @@ inline std::string numberLike(Rng& r, char dec, char sci)
   return s;
 }
 // ---------------------------------------------------------------- grammar-aware seeds (C16)
+// numeric arguments of extreme magnitude and degenerate spellings (dictionary)
+inline const std::vector<std::string>& extremeValues()
+{
+  static const std::vector<std::string> v = {"", "0", "-0", "1", "-1", "0.5", "1e20", "-1e20", "1e308", "-1e308", "1e-320", "1e-308",
+                                             "1e999", "inf", "-inf", "nan", "0.0000001", "123456789012345678901234567890", "2147483648", "x"};
+  return v;
+}
+// vector arguments with missing / empty / unbalanced parentheses
+inline const std::vector<std::string>& vectorValues()
+{
+  static const std::vector<std::string> v = {"", "(", ")", "()", "(1", "1)", "1", "(1)", "(1,2)", "(,)", "(1,)", "((1))", ")(", "(0.5,0.5)", "(1e308,1e308)", "(nan)", "(-1)", "(0)"};
+  return v;
+}
+inline std::string extremeNumber(Rng& r) { return extremeValues()[r.below(extremeValues().size())]; }
 inline std::string seedWord(Rng& r)
 {
   static const std::string a = "abcxyz012._-";
@@ -182,7 +196,10 @@ inline std::string seedDistribution(Rng& r, int depth)
 {
   static const char* fams[] = {"Gamma", "Gaussian", "Beta", "Exponential", "TruncExponential", "Uniform", "Constant", "Simple", "Invariant", "Mixture", "Foo"};
   std::string f = fams[r.below(11)];
-  auto num = [&]() { return std::to_string(r.range(0, 40)) + (r.coin() ? "." + std::to_string(r.range(0, 99)) : ""); };
+  auto num = [&]() -> std::string {
+    if (r.chance(1, 6)) return extremeNumber(r);
+    return std::to_string(r.range(0, 40)) + (r.coin() ? "." + std::to_string(r.range(0, 99)) : "");
+  };
   if (f == "Constant") return f + "(value=" + num() + ")";
   if (f == "Simple")
   {
@@ -193,13 +210,17 @@ inline std::string seedDistribution(Rng& r, int depth)
       v += (i ? "," : "") + num();
       p += (i ? "," : "") + std::string("0.") + std::to_string(r.range(1, 9));
     }
-    std::string s = f + "(values=" + v + "),probas=" + p + ")";
+    v += ")";
+    p += ")";
+    if (r.chance(1, 4)) v = vectorValues()[r.below(vectorValues().size())];
+    if (r.chance(1, 4)) p = vectorValues()[r.below(vectorValues().size())];
+    std::string s = f + "(values=" + v + ",probas=" + p;
     if (r.chance(1, 3)) s += ",ranges=(V1[" + num() + ";" + num() + "])";
     return s + ")";
   }
   if (f == "Invariant" && depth > 0) return f + "(dist=" + seedDistribution(r, depth - 1) + ",p=0." + std::to_string(r.range(1, 9)) + ")";
   if (f == "Mixture" && depth > 0)
-    return f + "(probas=(0.5,0.5),dist1=" + seedDistribution(r, depth - 1) + ",dist2=" + seedDistribution(r, depth - 1) + ")";
+    return f + "(probas=" + (r.chance(1, 3) ? vectorValues()[r.below(vectorValues().size())] : std::string("(0.5,0.5)")) + ",dist1=" + seedDistribution(r, depth - 1) + ",dist2=" + seedDistribution(r, depth - 1) + ")";
   std::string s = f + "(n=" + std::to_string(r.range(0, 9));
   static const char* keys[] = {"alpha", "beta", "mu", "sigma", "lambda", "tp", "begin", "end", "offset", "median"};
   size_t k = r.below(4);
@@ -230,9 +251,9 @@ inline std::string seedInterval(Rng& r)
 {
   std::string s;
   s += r.coin() ? '[' : ']';
-  s += r.chance(1, 5) ? "-inf" : numberLike(r, '.', 'e');
+  s += r.chance(1, 5) ? "-inf" : (r.chance(1, 4) ? extremeNumber(r) : numberLike(r, '.', 'e'));
   s += ';';
-  s += r.chance(1, 5) ? "inf" : numberLike(r, '.', 'e');
+  s += r.chance(1, 5) ? "inf" : (r.chance(1, 4) ? extremeNumber(r) : numberLike(r, '.', 'e'));
   s += r.coin() ? ']' : '[';
   return s;
 }
@@ -293,6 +314,116 @@ inline std::string seedPath(Rng& r)
   }
   if (r.coin()) s += "." + seedWord(r);
   return s;
+}
+
+// ---------------------------------------------------------------- dictionaries (C16, batch "dict")
+// Systematic (not random) descriptions: every argument of every distribution family takes every extreme /
+// degenerate value in turn, the other arguments keeping a plain value; likewise for sequence, vector and
+// interval descriptions.
+inline std::vector<std::string> dictDistributions()
+{
+  struct Fam
+  {
+    const char* name;
+    std::vector<std::pair<const char*, const char*>> args; // key, plain value
+    std::vector<const char*> vectorKeys;
+  };
+  static const std::vector<Fam> fams = {
+      {"Gamma", {{"n", "3"}, {"alpha", "1"}, {"beta", "1"}, {"offset", "0"}, {"ParamOffset", "1"}}, {}},
+      {"Gaussian", {{"n", "3"}, {"mu", "0"}, {"sigma", "1"}}, {}},
+      {"Beta", {{"n", "3"}, {"alpha", "1"}, {"beta", "1"}}, {}},
+      {"Exponential", {{"n", "3"}, {"lambda", "1"}, {"median", "1"}}, {}},
+      {"TruncExponential", {{"n", "3"}, {"lambda", "1"}, {"tp", "4"}, {"median", "1"}}, {}},
+      {"Uniform", {{"n", "3"}, {"begin", "0"}, {"end", "1"}}, {}},
+      {"Constant", {{"value", "1"}}, {}},
+      {"Simple", {{"values", "(1,2)"}, {"probas", "(0.5,0.5)"}, {"ranges", "(V1[0;3])"}}, {"values", "probas", "ranges"}},
+      {"Invariant", {{"dist", "Gamma(n=2)"}, {"p", "0.1"}}, {}},
+      {"Mixture", {{"probas", "(0.5,0.5)"}, {"dist1", "Constant(value=1)"}, {"dist2", "Gamma(n=2)"}}, {"probas"}},
+  };
+  std::vector<std::string> out;
+  for (const auto& f : fams)
+  {
+    auto render = [&](size_t which, const std::string& val, bool drop) {
+      std::string s = std::string(f.name) + "(";
+      bool first = true;
+      for (size_t i = 0; i < f.args.size(); ++i)
+      {
+        if (i == which && drop) continue;
+        if (std::string(f.args[i].first) == "ranges" && i != which) continue; // optional argument
+        if (!first) s += ",";
+        first = false;
+        s += std::string(f.args[i].first) + "=" + (i == which ? val : std::string(f.args[i].second));
+      }
+      return s + ")";
+    };
+    out.push_back(render(f.args.size(), "", false));
+    for (size_t i = 0; i < f.args.size(); ++i)
+    {
+      out.push_back(render(i, "", true)); // argument missing
+      for (const auto& v : extremeValues()) out.push_back(render(i, v, false));
+      for (const auto& v : vectorValues()) out.push_back(render(i, v, false));
+      if (std::string(f.args[i].first) == "ranges")
+        for (const char* v : {"(V1)", "(V1[)", "(V1[;])", "(V[0;1])", "(V0[0;1])", "(V9[1;0])", "(V1[0;1],V1[0;1])", "(Vx[0;1])", "(V1[nan;inf])", "V1[0;1]", "([;])"})
+          out.push_back(render(i, v, false));
+    }
+  }
+  return out;
+}
+inline std::vector<std::string> dictVectors()
+{
+  // getVector: "seq(from=..,to=..,step=..|size=..[,scale=..])" with every combination of extreme values, and plain lists
+  std::vector<std::string> out;
+  static const std::vector<std::string> b = {"", "0", "-0", "1", "-1", "7", "1e20", "-1e20", "1e308", "-1e308", "1e-320", "inf", "nan", "x"};
+  static const std::vector<std::string> st = {"", "0", "-0", "1", "-1", "0.5", "1e-320", "1e-20", "1e20", "1e308", "inf", "nan", "x"};
+  for (const auto& f : b)
+    for (const auto& t : b)
+    {
+      for (const auto& x : st) out.push_back("seq(from=" + f + ",to=" + t + ",step=" + x + ")");
+      for (const char* z : {"", "0", "-1", "1", "3", "1e9", "2147483648", "x"}) out.push_back("seq(from=" + f + ",to=" + t + ",size=" + std::string(z) + ")");
+    }
+  for (const char* sc : {"log", "exp", "10^", "", "foo"})
+    for (const char* f : {"0", "-1", "1e308", "710"}) out.push_back(std::string("seq(from=") + f + ",to=1e308,size=3,scale=" + sc + ")");
+  for (const char* s : {"seq", "seq(", "seq()", "seq)", "seq(from=1)", "seq(from=1,to=2)", "seq(to=2,step=1)", "seq(from=1,to=2,step=1", "seqfrom=1,to=2,step=1)",
+                        "seq((from=1,to=2,step=1))", "seq(from=(1),to=2,step=1)", "seq(from=1,from=2,to=3,step=1)"})
+    out.push_back(s);
+  for (const auto& v : extremeValues())
+  {
+    out.push_back(v);
+    out.push_back("1," + v);
+    out.push_back(v + "," + v);
+  }
+  for (const auto& v : vectorValues()) out.push_back(v);
+  return out;
+}
+inline std::vector<std::string> dictSequences()
+{
+  // seqFromString(s, ",", "-")
+  std::vector<std::string> out;
+  static const std::vector<std::string> b = {"", "0", "1", "7", "2147483647", "2147483648", "99999999999999999999", "1e9", "1e2", "x", "+3", " 4"};
+  for (const auto& f : b)
+  {
+    out.push_back(f);
+    for (const auto& t : b)
+    {
+      out.push_back(f + "-" + t);
+      out.push_back("-" + f + "-" + t);
+      out.push_back(f + "--" + t);
+      out.push_back("1," + f + "-" + t);
+    }
+  }
+  for (const char* s : {",", "-", "--", ",,", "1-2-3", "1,,2", "-,-", "3-1", "1-1"}) out.push_back(s);
+  return out;
+}
+inline std::vector<std::string> dictIntervals()
+{
+  std::vector<std::string> out;
+  static const std::vector<std::string> b = {"", "0", "-0", "1", "-1", "1e20", "1e308", "-1e308", "1e-320", "1e999", "inf", "+inf", "-inf", "nan", "x", " 1", "1 "};
+  for (const char* o : {"[", "]", "", "("})
+    for (const char* c : {"[", "]", "", ")"})
+      for (const auto& lo : b)
+        for (const auto& hi : b) out.push_back(std::string(o) + lo + ";" + hi + c);
+  for (const char* s : {"", "[", "]", ";", "[;", ";]", "[]", "[1]", "[1;2;3]", "[[1;2]]", "[1,2]", "];[", "[;]x"}) out.push_back(s);
+  return out;
 }
 
 // grow a seed up to maxLen bytes by repeating / nesting pieces of itself
